@@ -59,7 +59,7 @@ def is_ended_by(spec, cur, tid):
     pc = spec.get_path(cur)
     if tid in [x for x in pc if not isinstance(x, tuple)]:
         return True
-    if pc == spec.get_path(tid):
+    if spec.get_type(tid) is not None and pc == spec.get_path(tid):
         return True
     return spec.get_type(tid) is not None and spec.get_path(tid) == []
 
